@@ -59,7 +59,79 @@ def uf(E, name, *args):
         f = z3.Function(name, *([z3.RealSort()] * (len(args) + 1)))
         _UF[(name, len(args))] = f
     E.trusted.add("uninterpreted real function %s" % name)
-    return SReal(f(*[to_real(a) for a in args]))
+    targs = [to_real(a) for a in args]
+    r = f(*targs)
+    if getattr(E, "uf_axioms", False) and E.ps is not None:
+        _instantiate_axioms(E, name, f, targs, r)
+    return SReal(r)
+
+
+def _instantiate_axioms(E, name, f, targs, r):
+    """ground instances of the defining properties of sqrt / pow / exp / cos on the terms at hand
+    (assumption list of C20: each instance is a true statement about the real function)"""
+    key = (name, tuple(t.get_id() for t in targs))
+    seen = E.__dict__.setdefault("_uf_seen", {})
+    if seen.get("ps") is not E.ps:
+        seen.clear()
+        seen["ps"] = E.ps
+        seen["apps"] = {}
+    if key in seen:
+        return
+    seen[key] = True
+    apps = seen["apps"].setdefault(name, [])
+    ax = []
+    if name == "sqrt":
+        x = targs[0]
+        ax.append(z3.Implies(x >= 0, z3.And(r >= 0, r * r == x)))
+        ax.append(z3.Implies(x > 0, r > 0))
+        for (pargs, pr) in apps:
+            ax.append(z3.Implies(z3.And(pargs[0] >= 0, pargs[0] < x), pr < r))
+            ax.append(z3.Implies(z3.And(x >= 0, x < pargs[0]), r < pr))
+            ax.append(z3.Implies(x == pargs[0], r == pr))
+        E.trusted.add("axiom instances: sqrt(x)^2 = x, sqrt(x) >= 0, sqrt strictly increasing")
+    elif name == "pow":
+        x, y = targs
+        ax.append(z3.Implies(x > 0, r > 0))
+        ax.append(z3.Implies(z3.And(x >= 1, y >= 0), r >= 1))
+        ax.append(z3.Implies(z3.And(x > 1, y > 0), r > 1))
+        ax.append(z3.Implies(z3.And(x > 0, x <= 1, y >= 0), r <= 1))
+        ax.append(z3.Implies(y == 1, r == x))
+        ax.append(z3.Implies(x == 1, r == 1))
+        # (b^e)^y = b^(e*y)
+        if z3.is_app(x) and x.decl().name() == "pow" and x.num_args() == 2:
+            b, e = x.arg(0), x.arg(1)
+            prod = z3.simplify(e * y)
+            ax.append(z3.Implies(b > 0, r == f(b, prod)))
+            ax.append(z3.Implies(prod == 1, f(b, prod) == b))
+        for (pargs, pr) in list(apps):
+            # (b^e)^y = b^(e y) modulo equality: whenever the base x equals an earlier power b^e
+            prod = z3.simplify(pargs[1] * y)
+            comp = f(pargs[0], prod)
+            ax.append(z3.Implies(z3.And(x == pr, pargs[0] > 0), r == comp))
+            ax.append(z3.Implies(prod == 1, comp == pargs[0]))
+            ax.append(z3.Implies(pargs[0] > 0, comp > 0))
+            same = z3.simplify(pargs[1] == y)
+            if z3.is_true(same):
+                ax.append(z3.Implies(z3.And(pargs[0] > 0, pargs[0] < x, y > 0), pr < r))
+                ax.append(z3.Implies(z3.And(x > 0, x < pargs[0], y > 0), r < pr))
+                ax.append(z3.Implies(x == pargs[0], r == pr))
+        E.trusted.add("axiom instances: x^y > 0, x^1 = x, 1^y = 1, (b^e)^y = b^(e y), x^y increasing in x for y > 0")
+    elif name == "exp":
+        x = targs[0]
+        ax.append(r > 0)
+        ax.append(z3.Implies(x == 0, r == 1))
+        ax.append(z3.Implies(x <= 0, r <= 1))
+        E.trusted.add("axiom instances: exp(x) > 0, exp(0) = 1, exp(x) <= 1 for x <= 0")
+    elif name == "cos":
+        x = targs[0]
+        ax.append(r == f(-x))
+        ax.append(z3.And(r >= -1, r <= 1))
+        E.trusted.add("axiom instances: cos(-x) = cos(x), |cos| <= 1")
+    elif name == "sin":
+        ax.append(z3.And(r >= -1, r <= 1))
+    apps.append((targs, r))
+    for a in ax:
+        E.ps.add(a)
 
 
 PI = z3.Real("pi")
